@@ -9,6 +9,7 @@ from __future__ import annotations
 import asyncio
 import hashlib
 import json
+import re
 from typing import Any
 
 from . import seams
@@ -36,6 +37,11 @@ class Boom(Exception):
 
 EXC = {'ValueError': ValueError, 'KeyError': KeyError, 'RuntimeError': RuntimeError, 'Boom': Boom,
        'TimeoutError': TimeoutError, 'OSError': OSError}
+
+
+def _san(e, n=60):
+    """exception text with every id()/uuid-derived digit erased (must not reach the trace)"""
+    return re.sub(r'[0-9a-f]{4,}|\d+', 'N', str(e))[:n]
 
 
 class RecordingEvent(asyncio.Event):
@@ -108,7 +114,7 @@ class SimBus(EventBus):
         try:
             await super().process_event(event, timeout)
         except BaseException as e:
-            w.rec('pe_exc', self.name, name, type(e).__name__, str(e)[:40])
+            w.rec('pe_exc', self.name, name, type(e).__name__, _san(e))
             raise
         w.rec('pe_end', self.name, name, len(self.event_history))
 
@@ -160,6 +166,7 @@ class World:
         self.watch = None  # optional callable run after every callback (online invariants)
         self.xn = 0
         self.online: list[tuple] = []  # violations detected online
+        self.nprogress = 0
 
     # -- trace ---------------------------------------------------------------------
     def rec(self, kind, *fields):
@@ -167,6 +174,8 @@ class World:
         t = self.loop.time()
         self.last_progress = t
         self.recs.append((self.seq, round(t, 9), kind) + fields)
+        if kind in ('disp', 'pe_begin', 'pe_end', 'enter', 'exit', 'deq'):
+            self.nprogress += 1
         return self.seq
 
     def new_event(self, typ, depth, opts, actor, sid):
@@ -200,6 +209,7 @@ async def run_prog(w: World, prog, actor: str, depth: int, in_handler: bool, sid
                 await asyncio.sleep(0)
         elif o == 'pause':
             await asyncio.sleep(op[1])
+            w.last_progress = w.loop.time()  # a scripted sleep ending is progress (silence detector)
         elif o == 'burn':
             w.loop.burn(op[1])
         elif o in ('dispatch', 'dispatch_await'):
@@ -273,7 +283,7 @@ def do_dispatch(w: World, actor, busn, name, ev) -> bool:
     except Exception as e:  # rejected: recorded by SimBus.dispatch
         w.cur_actor = None
         if not isinstance(e, (RuntimeError, asyncio.QueueFull)):
-            w.rec('disp_odd_exc', actor, busn, name, type(e).__name__, str(e)[:60])
+            w.rec('disp_odd_exc', actor, busn, name, type(e).__name__, _san(e))
         return False
 
 
@@ -305,10 +315,22 @@ async def do_await(w: World, actor, name, ev, in_handler):
 
 async def do_results(w: World, actor, name, ev, accessor, raise_if_any):
     """C11: result accessor with raise_if_any flag."""
+    def ident_of(e):
+        for act, ex in w.raised.items():
+            if ex is e:
+                return act
+        return type(e).__name__
+
+    # errors recorded on the event at the time of the call, in handler order
+    def errs():
+        return tuple(ident_of(r.error if r.error is not None else r.result) for r in ev.event_results.values()
+                     if r.error is not None or isinstance(r.result, BaseException))
+
+    errs_now = errs()
     try:
         fn = getattr(ev, accessor)
         val = await fn(raise_if_any=raise_if_any, raise_if_none=False)
-        w.rec('results', actor, name, accessor, raise_if_any, 'ret', repr(val)[:60])
+        w.rec('results', actor, name, accessor, raise_if_any, 'ret', _san(repr(val)), errs_now, errs())
     except asyncio.CancelledError:
         raise
     except BaseException as e:
@@ -316,7 +338,7 @@ async def do_results(w: World, actor, name, ev, accessor, raise_if_any):
         for act, ex in w.raised.items():
             if ex is e:
                 ident = act
-        w.rec('results', actor, name, accessor, raise_if_any, 'exc:' + type(e).__name__, ident)
+        w.rec('results', actor, name, accessor, raise_if_any, 'exc:' + type(e).__name__, ident, errs_now, errs())
 
 
 def _mk_filter(spec):
@@ -634,7 +656,7 @@ def run_scenario(sc: dict, watch_factory=None, keep_world=False):
         except asyncio.CancelledError:
             w.rec('caller_end', actor, 'cancelled')
         except BaseException as e:
-            w.rec('caller_end', actor, 'exc:' + type(e).__name__, str(e)[:60])
+            w.rec('caller_end', actor, 'exc:' + type(e).__name__, _san(e))
 
     async def main():
         for b in sc['buses']:
@@ -668,13 +690,14 @@ def run_scenario(sc: dict, watch_factory=None, keep_world=False):
                 await asyncio.wait([t])
         w.rec('callers_done')
         if not sc.get('no_final_idle'):
-            for bn, bus in w.buses.items():
-                if bus._is_running:
-                    await do_wait_idle(w, 'main', bn, None)
-            # a second pass: cross-bus traffic may have re-awoken an earlier bus
-            for bn, bus in w.buses.items():
-                if bus._is_running:
-                    await do_wait_idle(w, 'main2', bn, None)
+            # settle: repeat passes over all buses until a whole pass saw no new activity
+            for rnd in range(12):
+                mark = w.nprogress
+                for bn, bus in w.buses.items():
+                    if bus._is_running:
+                        await do_wait_idle(w, f'main{rnd}', bn, None)
+                if w.nprogress == mark and rnd > 0:
+                    break
         w.rec('settled')
 
     try:
@@ -733,6 +756,8 @@ def trace_digest(w: World, res: dict) -> str:
     h = hashlib.sha256()
     for r in w.recs:
         h.update(repr(r).encode())
+        if r[2] == 'cut':
+            break  # what follows is teardown (task cancellation order is not part of the run)
     h.update(repr(sorted((k, repr(v)) for k, v in w.final.get('events', {}).items())).encode())
     h.update(str(res.get('end')).encode())
     return h.hexdigest()[:16]
@@ -745,6 +770,8 @@ def abstract_trace(w: World) -> str:
     acts = w.act_info
     for r in w.recs:
         k = r[2]
+        if k == 'cut':
+            break
         if k == 'enter':
             h.update(f'E{r[3]}{sid.get(r[4])}{r[5]}|'.encode())
         elif k == 'exit':
